@@ -4,11 +4,16 @@
 
 package jsonpointer
 
-import "github.com/go-faster/yaml"
+import (
+	"github.com/go-faster/yaml"
+
+	"github.com/ogen-go/ogen/location"
+)
 
 //@ use strings
 //@ use errors
 //@ use strconv
+//@ use neturl
 
 // rfcIndex: RFC 6901 section 4 array-index = %x30 / ( %x31-39 *(%x30-39) ) — no leading zeros.
 func rfcIndex(s string) bool {
@@ -38,3 +43,50 @@ func rfcIndex(s string) bool {
 //@   ensures noelem:  !ok ==> r == nil
 
 var _ yaml.Node
+
+// ---------------------------------------------------------------------------
+// ResolveCtx: the cycle / depth mechanism of reference resolution (C07)
+// Abstract view: refs = set of keys in progress, depthLimit = remaining depth, locstack = one entry
+// per key in progress.
+// ---------------------------------------------------------------------------
+
+//@ func (r *ResolveCtx) AddKey(key RefKey, file location.File) (err error)
+//@   requires ctx: r.refs != nil
+//@   modifies r.refs[*], r.depthLimit, r.locstack
+//@   ensures depth:   old(r.depthLimit) <= 0 ==> err != nil && r.depthLimit == old(r.depthLimit) && len(r.locstack) == len(old(r.locstack)) &&
+//@                      (forall k RefKey :: vHas(r.refs, k) == vHas(old(r.refs), k))
+//@   ensures cycle:   old(r.depthLimit) > 0 && vHas(old(r.refs), key) ==> err != nil && r.depthLimit == old(r.depthLimit) && len(r.locstack) == len(old(r.locstack)) &&
+//@                      (forall k RefKey :: vHas(r.refs, k) == vHas(old(r.refs), k))
+//@   ensures rollback: err != nil ==> r.depthLimit == old(r.depthLimit) && len(r.locstack) == len(old(r.locstack)) &&
+//@                      (forall k RefKey :: vHas(r.refs, k) == vHas(old(r.refs), k))
+//@   ensures pushed:  err == nil ==> old(r.depthLimit) > 0 && !vHas(old(r.refs), key) && r.depthLimit == old(r.depthLimit) - 1 &&
+//@                      len(r.locstack) == len(old(r.locstack)) + 1 &&
+//@                      (forall k RefKey :: vHas(r.refs, k) == (vHas(old(r.refs), k) || k == key))
+
+//@ func (r *ResolveCtx) Delete(key RefKey)
+//@   requires ctx:  r.refs != nil
+//@   requires room: r.depthLimit < 9223372036854775807
+//@   modifies r.refs[*], r.depthLimit, r.locstack
+//@   ensures popped: r.depthLimit == old(r.depthLimit) + 1 &&
+//@                   (forall k RefKey :: vHas(r.refs, k) == (vHas(old(r.refs), k) && k != key)) &&
+//@                   (len(old(r.locstack)) > 0 ==> len(r.locstack) == len(old(r.locstack)) - 1)
+
+// Harness: a successful AddKey followed by Delete of the same key restores the abstract view —
+// the balanced push/pop that makes nested resolution terminate within the depth limit.
+//@ func verifAddDelete(r *ResolveCtx, key RefKey, file location.File) (err error)
+//@   requires ctx: r != nil && r.refs != nil
+//@   modifies r.refs[*], r.depthLimit, r.locstack
+//@   ensures balanced: r.depthLimit == old(r.depthLimit) && len(r.locstack) == len(old(r.locstack)) &&
+//@                     (err == nil ==> (forall k RefKey :: vHas(r.refs, k) == vHas(old(r.refs), k)))
+func verifAddDelete(r *ResolveCtx, key RefKey, file location.File) error {
+	if err := r.AddKey(key, file); err != nil {
+		if len(r.locstack) == 0 { // keep the function total for the replay harness
+			return err
+		}
+		return err
+	}
+	r.Delete(key)
+	return nil
+}
+
+var _ location.File
